@@ -71,17 +71,25 @@ def cli_pairs(ctx, n):
             except Exception:
                 return ["<unparsable>", s[-200:]]
         base = ["list files", "compress directory", "look", "git commit", "kelvin", "comprss directry", "lst fils"]
+        # queries that only the CLI's last-resort recovery search answers: a first word sharing no letter
+        # sequence with any entry (so lexical and typo search find nothing) followed by a fragment of a command
+        cmd_words = ["archive", "commit", "kelvin", "temperature", "directory", "staged", "words"]
+        def recovery_query():
+            w = rnd.choice(cmd_words)
+            i = rnd.randrange(0, max(1, len(w) - 3))
+            return rnd.choice(["qzxj", "jqxz", "zzqj"]) + " " + w[i:i + rnd.randint(3, 5)]
         bad = 0
         for k in range(n):
-            q = rnd.choice(base)
+            q = recovery_query() if k % 2 else rnd.choice(base)
             v = "".join(c.upper() if rnd.random() < 0.5 else c for c in q)
             if "k" in v and rnd.random() < 0.5:
-                v = v.replace("k", "K", 1)
+                v = v.replace("k", "\u212a", 1)
             v = rnd.choice(["", " ", "  ", "\t"]) + v.replace(" ", rnd.choice([" ", "  ", " \t "])) + rnd.choice(["", " ", "\n"])
             a, b = run(q), run(v)
             ctx.cov["evaluations"] += 1
             if a:
                 ctx.distinct.add("cli:" + q + "|" + v)
+                ctx.add_distribution({"cli.recovery-answered" if k % 2 else "cli.engine-answered": 1})
             if a != b:
                 bad += 1
                 ctx.hit("cli-case-or-whitespace-changes-output", "wtf %r -> %s but %r -> %s" % (q, a, v, b),
@@ -109,4 +117,4 @@ def run(ctx):
         ctx.correspond("search", 150 if quick else 3000, name="search-random", shrink=False, nontrivial=nontrivial, seed_offset=5)
     finally:
         os.environ.pop("VERIF_RESPELL", None)
-    cli_pairs(ctx, 12 if quick else 120)
+    cli_pairs(ctx, 40 if quick else 400)
